@@ -284,8 +284,32 @@ type kmsPlugin interface {
 	DecryptKey(context.Context, []byte) ([]byte, error)
 }
 
+// flakyAEAD is the AEAD handed to the plugins: the real AES-256-GCM, made to fail on demand.
+type flakyAEAD struct {
+	ae.AEAD
+	failEnc, failDec bool
+}
+
+func (f *flakyAEAD) Encrypt(data, key []byte) ([]byte, error) {
+	if f.failEnc {
+		return nil, errors.New("aead: injected encrypt failure")
+	}
+	return f.AEAD.Encrypt(data, key)
+}
+
+func (f *flakyAEAD) Decrypt(data, key []byte) ([]byte, error) {
+	if f.failDec {
+		return nil, errors.New("aead: injected decrypt failure")
+	}
+	return f.AEAD.Decrypt(data, key)
+}
+
+// c17AEAD is the AEAD of the plugin built last (its failure switches are flipped by awsAEADFaults).
+var c17AEAD *flakyAEAD
+
 func buildPlugin(ver string, c *cloud, regions []string, preferred string) (kmsPlugin, error) {
-	crypto := aead.NewAES256GCM()
+	c17AEAD = &flakyAEAD{AEAD: aead.NewAES256GCM()}
+	var crypto ae.AEAD = c17AEAD
 	if ver == "v1" {
 		var clients []pv1.AWSKMSClient
 		// hand the clients over in reverse order so that "preferred first" is the plugin's doing
@@ -572,6 +596,9 @@ func awsSpace(r *Report, prop string, maxN int) {
 	if prop == "C17" {
 		awsMapOrders(r, maxN, fail)
 	}
+	if prop == "C17" || prop == "C10" {
+		awsAEADFaults(r, maxN, fail)
+	}
 }
 
 // CheckC17 runs the product for the tier's region count.
@@ -608,6 +635,70 @@ func permutations(n int) [][]int {
 	}
 	rec(nil, make([]bool, n))
 	return out
+}
+
+// awsAEADFaults: the local AEAD step of the plugins fails (wrapping the system key under the fresh data key / unwrapping
+// it): the call returns an error and every data-key plaintext the regional endpoints handed out is wiped all the same.
+func awsAEADFaults(r *Report, maxN int, fail func(p, sig, ops, format string, a ...interface{})) {
+	n0 := 0
+	sk := []byte("system-key-bytes-32-bytes-long!!")
+	for n := 1; n <= maxN; n++ {
+		regions := c17Regions[:n]
+		for _, preferred := range regions {
+			for _, ver := range []string{"v1", "v2"} {
+				c := newCloud()
+				p, err := buildPlugin(ver, c, regions, preferred)
+				if err != nil {
+					continue
+				}
+				crypto := c17AEAD
+				tag := fmt.Sprintf("n=%d preferred=%s %s aead-fault", n, preferred, ver)
+				env, err := p.EncryptKey(ctx, append([]byte(nil), sk...))
+				if err != nil {
+					fail("C17", "wrap-failed", tag, "%s: EncryptKey failed without faults: %v", tag, err)
+					continue
+				}
+				// wrap with a failing AEAD
+				c.reset()
+				crypto.failEnc = true
+				_, werr := p.EncryptKey(ctx, append([]byte(nil), sk...))
+				crypto.failEnc = false
+				n0++
+				if werr == nil {
+					fail("C17", "aead-failure-swallowed:wrap:"+ver, tag, "%s: the AEAD failed while wrapping but EncryptKey reported success", tag)
+				}
+				for i, b := range c.retained {
+					if !allZero(b) {
+						fail("C17", "datakey-plaintext-not-wiped:aead-failure:"+ver, tag, "%s: plaintext from %s still readable after EncryptKey failed at the AEAD step", tag, c.retainedOp[i])
+						fail("C10", "aws-datakey-plaintext-not-wiped:aead-failure:"+ver, tag, "%s: plaintext from %s still readable after EncryptKey failed at the AEAD step", tag, c.retainedOp[i])
+					}
+				}
+				// unwrap with a failing AEAD: every region is tried, every returned plaintext wiped, an error comes back
+				c.reset()
+				crypto.failDec = true
+				_, derr := p.DecryptKey(ctx, env)
+				crypto.failDec = false
+				n0++
+				if derr == nil {
+					fail("C17", "aead-failure-swallowed:unwrap:"+ver, tag, "%s: the AEAD failed while unwrapping but DecryptKey reported success", tag)
+				}
+				for i, b := range c.retained {
+					if !allZero(b) {
+						fail("C17", "datakey-plaintext-not-wiped:aead-failure:"+ver, tag, "%s: plaintext from %s still readable after DecryptKey failed at the AEAD step", tag, c.retainedOp[i])
+						fail("C10", "aws-decrypt-plaintext-not-wiped:aead-failure:"+ver, tag, "%s: plaintext from %s still readable after DecryptKey failed at the AEAD step", tag, c.retainedOp[i])
+					}
+				}
+				// and afterwards everything works again
+				if out, err := p.DecryptKey(ctx, env); err != nil || !bytes.Equal(out, sk) {
+					fail("C17", "no-recovery-after-aead-failure:"+ver, tag, "%s: DecryptKey fails after the AEAD recovered: %v", tag, err)
+				}
+			}
+		}
+	}
+	r.Evaluations += n0
+	r.TracesValidated += n0
+	r.Transitions += int64(n0)
+	r.Counters["aws-aead-fault-cases"] += n0
 }
 
 // awsMapOrders: the plugins build their clients by ranging over the region -> ARN map, whose iteration order Go leaves
